@@ -233,3 +233,29 @@ _EDITS5 = [
 for _k, _a, _b in _EDITS5:
     if _a in TEXTS[_k][0]:
         TEXTS[_k] = (TEXTS[_k][0].replace(_a, _b, 1), TEXTS[_k][1])
+
+_EDITS6 = [
+ ("C01", "The composition over the scheduler (each accepted set reported exactly once by the first cycle that begins after its push) is shown by correspondence",
+  "End to end (theorems, all interleavings): a call made while the thread's sender is idle and its ring has room, followed by any history in which that "
+  "thread only pushes, leaves every command of the call in the ring or the batch; a SubmitSpans that has landed there is reported, one record per span per "
+  "token item, by the process step of the cycle in progress or of the next complete cycle, whatever any threads do meanwhile and even if the thread exits "
+  "(a thread leaves the collector's view only with an empty ring, in every reachable state); so the record of a dropped span of a sampled trace is in one "
+  "of those two reports for every sampled parent item. With a full ring an unforced set may be dropped (C09). The same composition is also exercised by correspondence"),
+ ("C10", "!Send of guards is a compile-time fact, not a theorem.",
+  "The scope stamp: with handle and counter of one machine width the machine comparison is the model's for scopes opened fewer than 2^width openings apart "
+  "(theorem), instantiated with the field types translated from the source on every run (obligation: all four widths agree, no casts); worker threads of the "
+  "harness start with scope counters of 0, 2^32-2, 5*2^32+7 and usize::MAX-1 (hook). !Send of guards is a compile-time fact, not a theorem."),
+ ("C15", "Partial: syn/quote and Rust's ownership rules are outside the model; format strings are compared with hand-expanded expectations.",
+  "Property values: the macro's unescape_format_string is modelled (two str::replace passes, contains) and proved, for EVERY string, against a left-to-right "
+  "reading of the string as format!() reads it: a value without arguments is recorded as exactly what format!() prints, a value whose first unescaped brace opens "
+  "an argument goes to format!() verbatim; the function's own source text is cut out of fastrace-macro at build time and run on all strings over {,},a up to "
+  "length 7 and on random ones against model and specification. Twins also keep a completed future alive past the report, make a second traced call after one "
+  "that panicked, and run under an unsampled parent nested in a sampled one. Partial: syn/quote and Rust's ownership rules are outside the model; format!() itself "
+  "is compared with hand-expanded expectations; strings format!() rejects are outside the claim."),
+ ("C19", "Partial: the third-party encoders themselves",
+  "Reporter objects serve several consecutive batches, the Datadog agent sometimes does not answer or answers 500 and the OTel exporter sometimes fails: the next "
+  "report must be complete and well-formed again. Partial: the third-party encoders themselves"),
+]
+for _k, _a, _b in _EDITS6:
+    assert _a in TEXTS[_k][0], (_k, _a[:40])
+    TEXTS[_k] = (TEXTS[_k][0].replace(_a, _b, 1), TEXTS[_k][1])
